@@ -193,8 +193,8 @@ where
             nodes: extend_lpm(
                 self.table,
                 other.table,
-                self.table[self.loc.idx()].prefix_value(),
-                other.table[other.loc.idx()].prefix_value(),
+                None,
+                None,
                 next_indices(
                     self.table,
                     other.table,
